@@ -741,12 +741,12 @@ theorem filterMap_entries_filter (fc : Nat → Option Nat) (l : Nat) (L : List N
   | nil => rfl
   | cons g L ih =>
     cases hfg : fc g with
-    | none => simp [List.filterMap_cons, hfg, ih]
+    | none => simp [hfg, ih]
     | some l' =>
       by_cases hl : l' = l
-      · subst hl; simp [List.filterMap_cons, hfg, ih]
+      · subst hl; simp [hfg, ih]
       · have : ¬ (some l' = some l) := fun e => hl (Option.some.inj e)
-        simp [List.filterMap_cons, hfg, ih, hl]
+        simp [hfg, ih, hl]
 
 theorem entries_filter (fc : Nat → Option Nat) (cols l : Nat) :
     (entries fc cols).filter (fun e => e.1 = l)
@@ -846,9 +846,9 @@ theorem length_eq_sum_count (es : List (Nat × Nat)) (n : Nat) (hall : ∀ e ∈
       intro l
       unfold countLow
       by_cases h : e.1 = l
-      · subst h; simp [List.filter_cons]; omega
+      · subst h; simp; omega
       · have : ¬ l = e.1 := fun x => h x.symm
-        simp [List.filter_cons, h, this]
+        simp [h, this]
     rw [show countLow (e :: es) = fun l => (if l = e.1 then 1 else 0) + countLow es l from funext hpt,
       sumTo_add_fun, sumTo_ind, if_pos (hall e List.mem_cons_self),
       ← ih (fun x hx => hall x (List.mem_cons_of_mem _ hx)), List.length_cons]
